@@ -9,10 +9,17 @@ import (
 )
 
 func TestMain(m *testing.M) {
+	if os.Getenv("VERIF_WORKER") != "" {
+		workerMain()
+		os.Exit(0)
+	}
 	rc := m.Run()
+	shutdownWorker()
 	stats.Flush()
 	os.Exit(rc)
 }
+
+func TestNothing(t *testing.T) {}
 
 func tier() string {
 	if t := os.Getenv("VERIF_TIER"); t != "" {
